@@ -1,5 +1,6 @@
 import Proofs.XsdScript
 import Proofs.XsdText
+import Proofs.XsdRel
 
 /-!
   C20 — XSD generation mirrors the component's classes and data types.
@@ -97,6 +98,64 @@ theorem xsd_core_table :
     coreXs "state<State_Model>" = none ∧ coreXs "inst_ref<Object>" = none := by
   decide
 
+/-- `coreXs` IS the if/elif chain of the source (`Gen.XsdCore`, regenerated from gen_xsd_schema.py on every run):
+    every listed name maps to its listed base, every other name to none; and the two truthiness tests and the
+    range of supported core types the model assumes are the ones the source has -/
+theorem xsd_core_table_generated :
+    (∀ p ∈ Gen.XsdCore.table, coreXs p.1 = p.2) ∧
+    (∀ n, (∀ p ∈ Gen.XsdCore.table, p.1 ≠ n) → coreXs n = none) ∧
+    Gen.XsdCore.elseIsNone = true ∧ Gen.XsdCore.attrNeedsTruthyTypeName = true ∧
+    Gen.XsdCore.userNeedsTruthyBaseName = true ∧ Gen.XsdCore.coreLo = 1 ∧ Gen.XsdCore.coreHi = 5 := by
+  refine ⟨by decide, ?_, rfl, rfl, rfl, rfl, rfl⟩
+  intro n h
+  unfold coreXs
+  have : Gen.XsdCore.table.find? (fun p => p.1 == n) = none := by
+    apply List.find?_eq_none.mpr
+    intro p hp
+    simpa using h p hp
+  rw [this]
+
+/-! ### the same against a relational specification
+
+  `Reaches cs comp p` — the containment chain PE_PE -> EP_PKG | C_C -> … of `p` reaches the component;
+  `InComp cs p` — some C_C row lies on that chain (so `¬ InComp` = global); `BaseName dts dt n` — following user types
+  over R18 from `dt` ends at a core type 1..5 or an enumeration with the NON-EMPTY name `n`.  Under `XWF` (acyclic
+  containment and user-type chains; there Python terminates and the fuel of the model is never exhausted) the functions
+  of the model decide exactly these relations. -/
+
+/-- what the scope functions and the type walk of the model mean -/
+theorem xsd_spec_meaning {d : ClassDiagram} (xwf : XWF d) (comp : Nat) :
+    (∀ p, containedIn d.containers comp p = true ↔ Reaches d.containers comp p) ∧
+    (∀ p, isGlobal d.containers p = true ↔ ¬ InComp d.containers p) ∧
+    (∀ dt n, baseTypeName d.dts dt = some n ↔ BaseName d.dts dt n) ∧
+    (∀ p, Reaches d.containers comp p → InComp d.containers p) :=
+  ⟨fun p => contained_iff xwf.tree comp p, fun p => global_iff xwf.tree p, fun dt n => baseTypeName_iff xwf.chain dt n,
+   fun _ h => reaches_inComp h⟩
+
+/-- class elements: exactly the classes whose containment chain reaches the component -/
+theorem xsd_complete_rel {d : ClassDiagram} (xwf : XWF d) (comp : Nat) (xc : XClass) :
+    xc ∈ (xsdSpec d comp).classes ↔ ∃ c ∈ d.classes, Reaches d.containers comp c.parent ∧ xc = xclassOf d c :=
+  xsd_classes_rel xwf.tree comp xc
+
+/-- attributes: declared iff not derived and the data type of the attribute (for a referential one: of the base
+    attribute it refers to over R113) has a base name; an attribute whose base data type has the EMPTY name is not
+    declared (Python: `if type_name and …`) -/
+theorem xsd_attribute_rule_rel {d : ClassDiagram} (xwf : XWF d) (a : Attr) (x : XAttr) :
+    xattr d a = some x ↔
+      a.isDerived = false ∧ x.name = a.name ∧ ∃ dt, attrDt d a = some dt ∧ BaseName d.dts dt x.ty :=
+  xattr_rel xwf.chain a x
+
+/-- simple types: the declarable data types that are global (no component on their chain) or whose chain reaches
+    the component; a user type is declarable iff its base is a core type 1..5, an enumeration or a user type with a
+    NON-EMPTY name (`if base_name:`) -/
+theorem xsd_types_rule_rel {d : ClassDiagram} (xwf : XWF d) (comp : Nat) :
+    (∀ x, x ∈ (xsdSpec d comp).types ↔
+      ∃ t ∈ d.dts, (¬ InComp d.containers t.parent ∨ Reaches d.containers comp t.parent) ∧ xtypeOf d.dts t = some x) ∧
+    (∀ b n, typeNameOf d.dts b = some n ↔
+      ∃ t, findDt d.dts b = some t ∧ t.name = n ∧ n ≠ "" ∧
+        ((∃ k, t.kind = .core k ∧ 1 ≤ k ∧ k ≤ 5) ∨ (∃ es, t.kind = .enum es) ∨ (∃ b', t.kind = .user b'))) :=
+  ⟨fun x => xsd_types_rel xwf.tree comp x, fun b n => typeNameOf_rel d.dts b n⟩
+
 /-! ### xsd_edit_commutes -/
 
 /-- for every edit (rename / retype / add attribute, add / permute enumerators, add user type, move a class
@@ -191,6 +250,71 @@ theorem xsd_edit_frame (s : XsdSpec) :
     rw [List.take_append_drop] at h1
     exact h1
 
+/-- frame, continued: what each declaration edit leaves UNCHANGED.  rename: the component name, every class with
+    other key letters, and in the named class the attribute types and their order; retype: the component name,
+    attribute names and order of every class, and the type of every attribute outside the listed sites; append
+    attribute: the existing attributes of the class stay, in place, before the new one; set enumerators: the component
+    name and every restriction and every enumeration with another name -/
+theorem xsd_edit_frame_unchanged (s : XsdSpec) :
+    (∀ kl old new, (specEdit (.renameAttr kl old new) s).comp = s.comp ∧
+      (∀ c ∈ s.classes, c.kl ≠ kl → c ∈ (specEdit (.renameAttr kl old new) s).classes)) ∧
+    (∀ sites ty, (specEdit (.retype sites ty) s).comp = s.comp ∧
+      ∀ c ∈ (specEdit (.retype sites ty) s).classes, ∀ a ∈ c.attrs, (c.kl, a.name) ∉ sites →
+        ∃ c' ∈ s.classes, c'.kl = c.kl ∧ a ∈ c'.attrs) ∧
+    (∀ kl x, (specEdit (.appendAttr kl x) s).comp = s.comp ∧
+      (specEdit (.appendAttr kl x) s).classes.map (·.kl) = s.classes.map (·.kl) ∧
+      ∀ c ∈ s.classes, c.kl = kl → { c with attrs := c.attrs ++ [x] } ∈ (specEdit (.appendAttr kl x) s).classes) ∧
+    (∀ name vs, (specEdit (.setEnum name vs) s).comp = s.comp ∧
+      (∀ n b, XType.restriction n b ∈ s.types → XType.restriction n b ∈ (specEdit (.setEnum name vs) s).types) ∧
+      (∀ n es, n ≠ name → XType.enumeration n es ∈ s.types →
+        XType.enumeration n es ∈ (specEdit (.setEnum name vs) s).types)) := by
+  refine ⟨?_, ?_, ?_, ?_⟩
+  · intro kl old new
+    refine ⟨rfl, ?_⟩
+    intro c hc hne
+    simp only [specEdit]
+    apply List.mem_map.mpr
+    refine ⟨c, hc, ?_⟩
+    have : (c.kl == kl) = false := by simp [hne]
+    simp [this]
+  · intro sites ty
+    refine ⟨rfl, ?_⟩
+    intro c hc a ha hns
+    simp only [specEdit] at hc
+    obtain ⟨c', hc', rfl⟩ := List.mem_map.mp hc
+    refine ⟨c', hc', rfl, ?_⟩
+    simp only at ha hns
+    obtain ⟨a', ha', rfl⟩ := List.mem_map.mp ha
+    by_cases hin : sites.contains (c'.kl, a'.name) = true
+    · simp only [hin, if_true] at hns
+      exact absurd (by simpa using hin) hns
+    · simp only [hin]
+      exact ha'
+  · intro kl x
+    refine ⟨rfl, ?_, ?_⟩
+    · simp only [specEdit, List.map_map]
+      apply List.map_congr_left
+      intro c _
+      simp only [Function.comp]
+      split <;> rfl
+    · intro c hc hk
+      simp only [specEdit]
+      apply List.mem_map.mpr
+      refine ⟨c, hc, ?_⟩
+      have : (c.kl == kl) = true := by simp [hk]
+      simp [this]
+  · intro name vs
+    refine ⟨rfl, ?_, ?_⟩
+    · intro n b h
+      simp only [specEdit]
+      exact List.mem_map.mpr ⟨_, h, rfl⟩
+    · intro n es hne h
+      simp only [specEdit]
+      apply List.mem_map.mpr
+      refine ⟨_, h, ?_⟩
+      have : (n == name) = false := by simp [hne]
+      simp [XType.setEnum, this]
+
 /-! ### xml_wellformed_tree -/
 
 /-- the output is a tree whose tags and attribute keys come from the fixed vocabulary and whose attribute
@@ -256,8 +380,16 @@ def d1 : ClassDiagram :=
       ⟨41, 1, .simple ⟨2, true, true, "is owned by"⟩ ⟨1, false, false, "owns"⟩ [⟨23, 11⟩], .pkg 5⟩] }
 
 theorem d1_xwf : XWF d1 := by
-  refine ⟨?_, by decide, by decide⟩
-  constructor <;> decide
+  refine ⟨?_, by decide, by decide, ?_, ?_⟩
+  · constructor <;> decide
+  · exact ⟨⟨fun p => match p with
+        | .none => 0 | .comp 6 => 1 | .pkg 5 => 2 | .pkg 7 => 1 | _ => 0,
+      by decide, by intro p; simp only [d1, List.length_cons, List.length_nil]; split <;> omega⟩⟩
+  · refine ⟨⟨fun i => if i = 51 then 1 else if i = 52 then 1 else 0, ?_,
+      by intro i; simp only [d1, List.length_cons, List.length_nil]; split <;> (try split) <;> omega⟩⟩
+    intro t ht b hk
+    simp only [d1, List.mem_cons, List.not_mem_nil, or_false] at ht
+    rcases ht with rfl | rfl | rfl | rfl | rfl | rfl | rfl | rfl <;> simp at hk <;> subst hk <;> decide
 
 example : (classNodes (xsd d1 6)).map (·.attr "name") = [some "OWN", some "DOG", some "LSH"] := by
   rw [xsd_complete]; decide
@@ -276,7 +408,14 @@ example : (xsdSpec d1 6).types =
      .restriction "Weekday" "Color", .enumeration "Color" ["red", "green"], .restriction "MyInt" "integer"] := by decide
 
 example : XScriptOk d1 [.addEnum 50 "blue", .permEnums 50 [2, 0, 1], .moveClass 1 (.pkg 7), .renameAttr 2 21 "chip"] := by
-  refine ⟨trivial, trivial, trivial, ?_, trivial⟩
+  refine ⟨trivial, ?_, trivial, ?_, trivial⟩
+  · intro x es hf hk
+    have h : findDt (applyXEdit (.addEnum 50 "blue") d1).dts 50 =
+        some ⟨50, "Color", .enum ["red", "green", "blue"], .pkg 5⟩ := by decide
+    rw [h] at hf
+    cases hf
+    cases hk
+    decide
   intro kc hc x hx hn
   have h : findClass (applyXEdit (.moveClass 1 (.pkg 7)) (applyXEdit (.permEnums 50 [2, 0, 1]) (applyXEdit (.addEnum 50 "blue") d1))) 2 =
       some ⟨2, "DOG", [⟨21, "tag", .base 51⟩, ⟨22, "color", .base 50⟩, ⟨23, "owner_id", .ref 1 11⟩], [⟨0, [21]⟩, ⟨1, []⟩], .pkg 5⟩ := by
@@ -296,10 +435,20 @@ example : (xsdSpec (applyXEdits [.addEnum 50 "blue", .permEnums 50 [2, 0, 1], .m
 
 /-- a fresh user type of the enumeration inside the component is applicable and declared last -/
 example : XEditOk d1 (.addType ⟨60, "Shade", .user 50, .pkg 5⟩) := by
-  refine ⟨⟨by decide, by decide, by decide, by decide, by decide⟩, by decide⟩
+  refine ⟨⟨by decide, by decide, by decide, by decide⟩, by decide⟩
 
 example : (xsdSpec (applyXEdit (.addType ⟨60, "Shade", .user 50, .pkg 5⟩) d1) 6).types.getLast? =
     some (.restriction "Shade" "Color") := by decide
+
+/-- the EMPTY data type name: enumeration "" (declared, `build_enum_type` does not test the name), user type U of it
+    (omitted: `if base_name:`), class K with x : "" and y : U (both omitted: `if type_name and …`) -/
+example :
+    let d : ClassDiagram :=
+      { containers := [⟨true, 6, "Comp", .none⟩],
+        dts := [⟨50, "", .enum ["a"], .comp 6⟩, ⟨51, "U", .user 50, .comp 6⟩],
+        classes := [⟨1, "K", [⟨11, "x", .base 50⟩, ⟨12, "y", .base 51⟩], [], .comp 6⟩],
+        rels := [] }
+    xsdSpec d 6 = ⟨[.enumeration "" ["a"]], "Comp", [⟨"K", []⟩]⟩ := by decide
 
 /-- names with XML-special characters survive the file: `a&b<c>"d` is written `a&amp;b&lt;c&gt;&quot;d` -/
 example : escAttr "a&b<c>\"d".toList = "a&amp;b&lt;c&gt;&quot;d".toList ∧
